@@ -7,7 +7,7 @@
    c : cfg quantifies over proxyauth on/off, every hook verdict function, eager/lazy
    and the OpenConnection result. *)
 From Coq Require Import List Bool Arith NArith.
-From MV Require Import Base.Bytes Model.Socks5 Proofs.Socks5Seg Proofs.Socks5Exact Proofs.Socks5Main Proofs.Socks5Inv.
+From MV Require Import Base.Bytes Model.Socks5 Model.Socks5Sched Proofs.Socks5Seg Proofs.Socks5Exact Proofs.Socks5Main Proofs.Socks5Inv Proofs.Socks5Sched.
 Import ListNotations.
 
 (* 1. The outcome does not depend on the segmentation: every splitting of a byte
@@ -144,3 +144,43 @@ Theorem C21_nonvacuous :
                      (Some ([x75], [x70; x77])) [x47; x45; x54]).
 Proof. exact nonvacuous. Qed.
 Print Assumptions C21_nonvacuous.
+
+(* 8. Schedules (layer.py Layer.handle_event / __continue): the socks5_auth hook and
+      OpenConnection may complete late, after any number of further client segments were
+      queued behind the pause.  run_sched c evs executes the pause / queue / replay
+      machinery over the event list evs (client segments and completions in any order).
+      As long as completions are only delivered for pending commands, the state obtained
+      by answering what is still pending and replaying the queue (flush) -- and, once
+      nothing is pending, the state itself -- is the state of the plain model on the
+      unsplit stream.  So replies, close, destination and the bytes relayed to the child
+      do not depend on when hooks complete. *)
+Theorem C21_schedule_independent : forall (c : cfg) (evs : list ev),
+  run_sched c evs <> LBad ->
+  flush c (run_sched c evs) = run c [concat (data_of evs)].
+Proof. exact schedule_independent. Qed.
+Print Assumptions C21_schedule_independent.
+
+Theorem C21_schedule_independent_settled : forall (c : cfg) (evs : list ev) (s : st),
+  run_sched c evs = LRun s -> s = run c [concat (data_of evs)].
+Proof. exact schedule_independent_settled. Qed.
+Print Assumptions C21_schedule_independent_settled.
+
+(* answering every command at once is Model/Socks5.v: the cut generators lose nothing *)
+Theorem C21_prompt_completion_is_plain_model : forall (c : cfg) (s : st) (d : bytes),
+  settle c (handle_data_r c s d) = handle_data c s d.
+Proof. exact handle_data_r_settle. Qed.
+Print Assumptions C21_prompt_completion_is_plain_model.
+
+(* non-vacuous: the CONNECT request and two payload segments queued behind the auth
+   hook, one more behind OpenConnection; paused state and final state computed *)
+Theorem C21_schedule_nonvacuous :
+  run_sched cfg_sched (firstn 5 sched_example)
+    = LPaused (SAuth [x01; x01; x75; x01; x70] [x75] [x70]
+                     (mkObs [x05; x02] None false false (Some ([x75], [x70])) []))
+              [[x05; x01; x00; x01; x7f; x00; x00; x01; x00; x50]; [x47; x45]; [x54]]
+  /\ run_sched cfg_sched sched_example
+    = LRun (Relay, mkObs ([x05; x02; x01; x00] ++ REPLY_SUCCESS)
+                         (Some (HText [x31; x32; x37; x2e; x30; x2e; x30; x2e; x31], 80%N)) true false
+                         (Some ([x75], [x70])) [x47; x45; x54; x20]).
+Proof. exact sched_nonvacuous. Qed.
+Print Assumptions C21_schedule_nonvacuous.
